@@ -71,8 +71,11 @@ def _case(draw):
     L0 = draw(st.integers(1, 5))
     series = []
     for _ in range(n):
-        L = L0 if eq else draw(st.integers(1, 5))
+        L = L0 if eq else draw(st.integers(1, 8))
         series.append(draw(gen.series(L, L, 'L', ndim)))
+    if not eq and draw(st.integers(0, 2)) == 0:
+        # shortest first: the first pairs are the smallest problems, the last pairs the largest
+        series.sort(key=len)
     if n >= 2 and draw(st.booleans()):
         series[draw(st.integers(0, n - 1))] = [x[:] if ndim > 1 else x for x in series[draw(st.integers(0, n - 1))]]
     lens = [len(s) for s in series]
